@@ -192,7 +192,7 @@ impl Engine for CrashEngine {
         // blocks - inside the same flush() that acknowledges the re-creation. Plain overwrites
         // (which cannot be written at all: the flush reports OutOfSpace and ends the workload) close it.
         let mut fd = Tape::fresh(mix(seed, 0xF0DE));
-        let full_device = matches!(property, "C02" | "C03" | "C05") && fd.chance(1, 6);
+        let full_device = matches!(property, "C02" | "C03" | "C04" | "C05") && fd.chance(1, 6);
         let (store, keys, clients, sim) = if full_device {
             let n = 3 + fd.below(4) as usize;
             let sizes: Vec<usize> = (0..n).map(|_| 1 + fd.below(3) as usize).collect();
